@@ -54,10 +54,17 @@ def _(self, job_spec):
     ensures(not old(result() in self.jobs) and result() in self.jobs, tag="new-id-unused", top=True)
     ensures(forall(str, lambda k: implies(old(k in self.jobs), k in self.jobs and same(self.jobs[k], old(self.jobs[k]))
                                           and self.jobs[k].progress == old(self.jobs[k].progress)
-                                          and self.jobs[k].last_seen == old(self.jobs[k].last_seen))),
+                                          and self.jobs[k].last_seen == old(self.jobs[k].last_seen)
+                                          and same(self.jobs[k].results, old(self.jobs[k].results)))),
             tag="existing-jobs-kept", top=True)
     ensures(self.jobs[result()].progress == JobProgressStarted and len(self.jobs[result()].results) == 0, tag="starts-empty")
     may_raise(Exception, when=True)   # spawning a subprocess may fail; handle_fe turns that into an error response
+    # ... and a failed spawn leaves every existing job as it was ("keeps serving the other jobs")
+    ensures_raise(Exception, forall(str, lambda k: implies(old(k in self.jobs), k in self.jobs and same(self.jobs[k], old(self.jobs[k]))
+                                                       and self.jobs[k].progress == old(self.jobs[k].progress)
+                                                       and self.jobs[k].last_seen == old(self.jobs[k].last_seen)
+                                                       and same(self.jobs[k].results, old(self.jobs[k].results)))),
+                  tag="failed-spawn-keeps-existing-jobs", top=True)
     modifies(self.jobs, "events", "socket", "progress", "last_seen", "results")
 
 
@@ -140,3 +147,58 @@ def _(socket, jobs):
     invariant(0, forall(str, lambda k: (k in jobs.jobs) == old(k in jobs.jobs) and implies(k in jobs.jobs, same(jobs.jobs[k], old(jobs.jobs[k])) and same(jobs.jobs[k].results, old(jobs.jobs[k].results)))))
     invariant(0, forall(str, lambda k: implies(k in jobs.jobs, key_of(jobs.jobs[k], "jobs") == k and same(owner_of(jobs.jobs[k].results, "results"), jobs.jobs[k]))))
     modifies(jobs.jobs[rep.job_id].results, "progress", "last_seen", "events")
+
+
+@contract("cascade.gateway.router:JobRouter.progress_of")
+def _(self, job_ids):
+    types(job_ids="list[str]")
+    # (the body re-binds the parameter: clauses name the value on entry through old(..))
+    unknown = exists(int, lambda i: 0 <= i and i < len(job_ids) and job_ids[i] not in self.jobs)
+    # "a request naming an unknown job ... gets an error": at this level a KeyError (handle_fe turns it into an error response)
+    raises(KeyError, when=unknown, tag="unknown-job-is-an-error", top=True)
+    r = typed(result(), dict[str, str])
+    # "the progress the gateway shows for a job": what is reported for a job is that job's stored progress, for exactly the jobs asked for
+    # (all jobs when none is named)
+    ensures(forall(str, lambda k: implies(k in r, k in self.jobs and r[k] == self.jobs[k].progress)), tag="shows-the-stored-progress-of-that-job", top=True)
+    ensures(forall(int, lambda i: implies(0 <= i and i < old(len(job_ids)), old(job_ids[i]) in r)), tag="every-named-job-is-answered", top=True)
+    ensures(implies(old(len(job_ids)) == 0, forall(str, lambda k: (k in r) == (k in self.jobs))), tag="no-name-means-all-jobs", top=True)
+    ensures(implies(old(len(job_ids)) > 0, forall(str, lambda k: implies(k in r, exists(int, lambda i: 0 <= i and i < old(len(job_ids)) and old(job_ids[i]) == k)))),
+            tag="only-named-jobs-are-answered", top=True)
+    modifies()
+
+
+pure_function("cascade.gateway.client:parse_request", returns="SubmitJobRequest | JobProgressRequest | ResultRetrievalRequest | ShutdownRequest", module="cascade.gateway.api")
+pure_function("cascade.gateway.client:serialize_response", returns="bytes", module="cascade.gateway.api")
+external_returns(b64encode="bytes")
+
+
+@contract("cascade.gateway.server:handle_fe")
+def _(socket, jobs):
+    types(socket="zmq.Socket")
+    observes(rr="recv", enc="b64encode")
+    m = parse_request(rr)
+    requires(forall(str, lambda k: implies(k in jobs.jobs, key_of(jobs.jobs[k], "jobs") == k and same(owner_of(jobs.jobs[k].results, "results"), jobs.jobs[k]))))
+    # "a request naming an unknown job or dataset gets an error response and the gateway keeps serving the other jobs":
+    # whatever the request, handle_fe answers (exactly one send, last) instead of raising, and no job's progress or results change
+    ensures(events_len() >= old(events_len()) + 2 and ev_name(event(events_len() - 1)) == "send", tag="every-request-is-answered", top=True)
+    ensures(forall(str, lambda k: implies(old(k in jobs.jobs), k in jobs.jobs and same(jobs.jobs[k], old(jobs.jobs[k])))), tag="no-job-is-dropped-or-replaced", top=True)
+    ensures(forall(str, lambda k: implies(old(k in jobs.jobs), jobs.jobs[k].progress == old(jobs.jobs[k].progress) and jobs.jobs[k].last_seen == old(jobs.jobs[k].last_seen))),
+            tag="progress-of-every-job-kept", top=True)
+    ensures(forall(str, lambda k: implies(old(k in jobs.jobs), same(jobs.jobs[k].results, old(jobs.jobs[k].results)))), tag="results-of-every-job-kept", top=True)
+    ensures(result() == isinstance(m, ShutdownRequest), tag="stops-only-on-shutdown-request")
+    rq = typed(m, ResultRetrievalRequest)
+    known = isinstance(m, ResultRetrievalRequest) and rq.job_id in jobs.jobs and rq.dataset_id in jobs.jobs[rq.job_id].results
+    sent = ev_arg(event(events_len() - 1), 0)
+    # "a result is returned exactly as uploaded and only for the job and dataset it was uploaded for": the answer carries the base64 text of
+    # exactly the bytes stored under (job, dataset) - base64.b64encode is the dependency, its argument and result are named here
+    ensures(implies(old(known), same(event(events_len() - 2), ev("b64encode", old(jobs.jobs[rq.job_id].results[rq.dataset_id])))
+                    and same(sent, serialize_response(ResultRetrievalResponse(result=enc, error=None)))), tag="result-returned-as-uploaded", top=True)
+    # "a request naming an unknown job or dataset gets an error response"
+    ensures(implies(isinstance(m, ResultRetrievalRequest) and not old(known),
+                    exists(str, lambda e: same(sent, serialize_response(ResultRetrievalResponse(result=None, error=e))))),
+            tag="unknown-job-or-dataset-gets-an-error-response", top=True)
+    pq = typed(m, JobProgressRequest)
+    unknown_job = isinstance(m, JobProgressRequest) and exists(int, lambda i: 0 <= i and i < len(pq.job_ids) and pq.job_ids[i] not in jobs.jobs)
+    ensures(implies(old(unknown_job), exists(str, dict[str, str], lambda e, d: len(d) == 0 and same(sent, serialize_response(JobProgressResponse(progresses=d, error=e))))),
+            tag="unknown-job-gets-an-error-response", top=True)
+    modifies(jobs.jobs, "events", "socket", "progress", "last_seen", "results")
